@@ -145,3 +145,78 @@ Lemma state_writers_covered_true : state_writers_covered = true.
 Proof. vm_compute. reflexivity. Qed.
 Lemma iface_covered_true : iface_covered = true.
 Proof. vm_compute. reflexivity. Qed.
+
+(* ---------- sequences of transactions ---------- *)
+Definition wf_txn (t : txn) : Prop :=
+  wf_tx (t_env t) (t_msg t) (t_opq t) (t_top t) /\ wf_msg (t_msg t) /\ m_isETX (t_msg t) = t_inbound t.
+
+Lemma charge_of_eq m r : charge_of m r = charge m r.
+Proof. reflexivity. Qed.
+
+Lemma run_tx_spec t b acc b' acc' :
+  wf_txn t -> nonneg b -> run_tx t b acc = (b', acc') ->
+  nonneg b'
+  /\ bsum b' = bsum b - (tot_charge acc' - tot_charge acc) - (tot_etx acc' - tot_etx acc) - (tot_burn acc' - tot_burn acc)
+               + (tot_rent acc' - tot_rent acc) + (tot_inbound acc' - tot_inbound acc)
+  /\ tot_charge acc <= tot_charge acc' /\ tot_etx acc <= tot_etx acc' /\ tot_burn acc <= tot_burn acc'
+  /\ tot_inbound acc <= tot_inbound acc'.
+Proof.
+  intros (WT & WM & XI) NN. unfold run_tx.
+  destruct (t_inbound t) eqn:IB.
+  - destruct (apply_etx (t_env t) (t_msg t) (t_opq t) (t_top t) (init b)) as [s' r] eqn:A.
+    destruct r as [|used failed]; cbn [is_invalid].
+    + intros [= <- <-]. repeat split; try lia. exact NN.
+    + intros [= <- <-]. cbn [tot_charge tot_etx tot_burn tot_rent tot_inbound].
+      pose proof WT as (Hr & W & HP & HV & HG & WO).
+      pose proof (etx_conserves _ _ _ _ _ _ _ _ W XI (WM XI) A) as C.
+      destruct (apply_etx_grows _ _ _ _ _ _ _ Hr W HP HV HG WO A NN) as (N1 & B & _ & _ & _ & X).
+      cbn in B, X. unfold rent_credit in C. rewrite XI.
+      repeat split; try lia. exact N1.
+  - destruct (apply_tx (t_env t) (t_msg t) (t_opq t) (t_top t) (init b)) as [s' r] eqn:A.
+    destruct r as [|used failed]; cbn [is_invalid].
+    + intros [= <- <-]. repeat split; try lia. exact NN.
+    + intros [= <- <-]. cbn [tot_charge tot_etx tot_burn tot_rent tot_inbound].
+      pose proof WT as (Hr & W & HP & HV & HG & WO).
+      pose proof (tx_conserves _ _ _ _ _ _ _ _ W WM A) as C.
+      destruct (apply_tx_grows _ _ _ _ _ _ _ Hr W HP HV HG WO A NN) as (N1 & B & _ & _ & _ & X).
+      cbn in B, X. unfold rent_credit in C.
+      assert (CH : 0 <= charge (t_msg t) (RDone used failed)).
+      { unfold charge. rewrite XI. unfold apply_tx in A.
+        destruct (transition (t_env t) (t_msg t) (t_opq t) (t_top t) (init b)) as [s1 r1] eqn:T.
+        inversion A; subst.
+        assert (WS : True) by exact I.
+        unfold transition in T. rewrite XI in T.
+        destruct (negb (o_pre_ok (t_opq t))); [discriminate|].
+        destruct (m_price (t_msg t) <? e_basefee (t_env t)); [discriminate|].
+        destruct (bget _ _ <? _); [discriminate|].
+        destruct (e_gp (t_env t) <? m_gas (t_msg t)); [discriminate|].
+        unfold after_buy in T.
+        destruct (m_gas (t_msg t) <? intrinsic (t_msg t)); [discriminate|].
+        destruct ((0 <? m_value (t_msg t)) && _); [discriminate|].
+        destruct WO as [[G0 G1] HRf].
+        assert (RQ : C02Sites.refund_quotient = 5) by reflexivity.
+        destruct (m_kind (t_msg t)) as [|err|[ben|]]; inversion T; subst; try nia.
+        rewrite RQ.
+        assert (D : 0 <= (m_gas (t_msg t) - o_gleft (t_opq t)) / 5 <= m_gas (t_msg t) - o_gleft (t_opq t)).
+        { split; [apply Z.div_pos; lia|]. apply Z.div_le_upper_bound; lia. }
+        nia. }
+      unfold charge in C, CH.
+      repeat split; try lia. exact N1.
+Qed.
+
+Theorem block_conserves l : forall b acc b' acc',
+  Forall wf_txn l -> nonneg b -> run_block l b acc = (b', acc') ->
+  nonneg b'
+  /\ bsum b' = bsum b - (tot_charge acc' - tot_charge acc) - (tot_etx acc' - tot_etx acc) - (tot_burn acc' - tot_burn acc)
+               + (tot_rent acc' - tot_rent acc) + (tot_inbound acc' - tot_inbound acc)
+  /\ tot_charge acc <= tot_charge acc' /\ tot_etx acc <= tot_etx acc' /\ tot_burn acc <= tot_burn acc'
+  /\ tot_inbound acc <= tot_inbound acc'.
+Proof.
+  induction l as [|t l IH]; intros b acc b' acc' WF NN; cbn [run_block].
+  - intros [= <- <-]. repeat split; try lia. exact NN.
+  - inversion WF as [|? ? Wt Wl]; subst.
+    destruct (run_tx t b acc) as [b1 acc1] eqn:R. intros H.
+    destruct (run_tx_spec t b acc b1 acc1 Wt NN R) as (N1 & S1 & C1 & E1 & B1 & I1).
+    destruct (IH b1 acc1 b' acc' Wl N1 H) as (N2 & S2 & C2 & E2 & B2 & I2).
+    repeat split; try lia. exact N2.
+Qed.
